@@ -123,6 +123,60 @@ $server->post('/t', function ($req, $res) {
   }
   $res->write($out);
 });
+// RequestFrames.tla: what a handler keeps while it serves a request; the step ("w" | "r") comes from the gate
+$capArr = ["init"];
+$capScalar = "init";
+class Bag {
+  public $items = ["init"];
+  public function add($v) { $this->items[] = $v; }
+}
+$server->post('/s', function ($req, $res) use ($capArr, $capScalar) {
+  $req->parseForm();
+  $me = verif_whoami();
+  $slot = $req->input('slot');
+  $loc = "init";
+  $larr = ["init"];
+  $bag = new Bag();
+  $out = "";
+  $k = verif_gate($me);
+  while ($k != "end") {
+    if ($k == "w") {
+      if ($slot == "local") { $loc = $loc . "," . $me; }
+      elseif ($slot == "localarr") { $larr[] = $me; }
+      elseif ($slot == "capscalar") { $capScalar = $capScalar . "," . $me; }
+      elseif ($slot == "caparr") { $capArr[] = $me; }
+      elseif ($slot == "object") { $bag->add($me); }
+    } else {
+      if ($slot == "local") { $out = $out . $loc . ";"; }
+      elseif ($slot == "localarr") { $out = $out . implode(",", $larr) . ";"; }
+      elseif ($slot == "capscalar") { $out = $out . $capScalar . ";"; }
+      elseif ($slot == "caparr") { $out = $out . implode(",", $capArr) . ";"; }
+      elseif ($slot == "object") { $out = $out . implode(",", $bag->items) . ";"; }
+    }
+    $k = verif_gate($me);
+  }
+  $res->write($out);
+});
+// the onFormat formatter runs inside $res->format(): its parameter $message and its local $fl are slots too
+$server->onFormat(function ($code, $message, $data) {
+  $me = verif_whoami();
+  $fl = "init";
+  $out = "";
+  $k = verif_gate($me);
+  while ($k != "end") {
+    if ($k == "w") {
+      if ($data == "fmtarg") { $message = $message . "," . $me; } else { $fl = $fl . "," . $me; }
+    } else {
+      if ($data == "fmtarg") { $out = $out . $message . ";"; } else { $out = $out . $fl . ";"; }
+    }
+    $k = verif_gate($me);
+  }
+  return ["out" => $out];
+});
+$server->post('/f', function ($req, $res) {
+  $req->parseForm();
+  $res->format(200, "init", $req->input('slot'));
+});
 // handlers without superglobals: locals, loops, arrays, objects, closures and the request object
 class Acc { public $items = []; public function add($v) { $this->items[] = $v; return $this; } public function sum() { $s = 0; foreach ($this->items as $x) { $s = $s + $x; } return $s; } }
 function fib($n) { if ($n < 2) { return $n; } return fib($n - 1) + fib($n - 2); }
@@ -261,6 +315,7 @@ func C11(c *Ctx) *kf.Report {
 		rep.Infraf("C11: no mux")
 		return rep
 	}
+	reqPath, reqExtra := "/t", ""
 	start := func(name string) *c11Req {
 		r := &c11Req{name: name, parked: make(chan struct{}, 1), cmd: make(chan string), done: make(chan struct{}), rec: httptest.NewRecorder()}
 		mu.Lock()
@@ -274,7 +329,7 @@ func C11(c *Ctx) *kf.Report {
 			byGID[curGID()] = r
 			mu.Unlock()
 			close(ready)
-			mux.ServeHTTP(r.rec, c11NewRequest("/t", name, ""))
+			mux.ServeHTTP(r.rec, c11NewRequest(reqPath, name, reqExtra))
 		}()
 		<-ready
 		return r
@@ -410,6 +465,125 @@ func C11(c *Ctx) *kf.Report {
 	rep.Coverage["forced_exhaustive"] = exhaustive
 	rep.Coverage["reads_compared"] = reads
 
+	// 2b. RequestFrames.tla: locals, by-value captures, objects and the formatter frame under every
+	// interleaving of two requests (each: begin, two steps write|read on one slot kind, end)
+	frames, frameReads := 0, 0
+	if len(rep.Infra) == 0 && !broken {
+		fok := runTLC(rep, tlc.Run{SpecDir: c.SpecDir(), Module: "RequestFrames", Cfg: "RequestFrames.cfg", Timeout: 10 * time.Minute,
+			Consts: map[string]string{"SHARED": "{}", "EMIT": "TRUE", "PROPS": "OwnFrameOnly NoForeignName"}})
+		fdev := runTLC(rep, tlc.Run{SpecDir: c.SpecDir(), Module: "RequestFrames", Cfg: "RequestFrames.cfg",
+			Consts: map[string]string{"SHARED": `{"caparr", "fmtarg"}`, "EMIT": "FALSE", "PROPS": "OwnFrameOnly"}})
+		if fdev != nil && fdev.Violated != "OwnFrameOnly" {
+			rep.Infraf("RequestFrames: a shared frame should violate OwnFrameOnly, got %q", fdev.Violated)
+		}
+		if fok != nil {
+			addTLC(rep, fok)
+			if fok.Violated != "" {
+				rep.Infraf("RequestFrames violates %s", fok.Violated)
+			}
+			fg, err := graph.Build(fok.Tagged["INIT"], fok.Tagged["EDGE"])
+			if err != nil {
+				rep.Infraf("RequestFrames graph: %v", err)
+			} else {
+				type fAct struct {
+					Op, R    string
+					Own, Dev []string
+				}
+				runFrames := func(init string, path []graph.Edge) bool {
+					var st struct{ Slot string }
+					must(json.Unmarshal(fg.States[init], &st))
+					reqPath, reqExtra = "/s", "&slot="+st.Slot
+					if strings.HasPrefix(st.Slot, "fmt") {
+						reqPath = "/f"
+					}
+					frames++
+					live := map[string]*c11Req{}
+					var acts []fAct
+					var sched []string
+					for _, e := range path {
+						var a fAct
+						must(json.Unmarshal(e.Act, &a))
+						acts = append(acts, a)
+						sched = append(sched, a.R+":"+a.Op)
+						okStep := true
+						switch a.Op {
+						case "begin":
+							live[a.R] = start(a.R)
+							okStep = wait(live[a.R].parked)
+						case "write", "read":
+							live[a.R].cmd <- a.Op[:1]
+							okStep = wait(live[a.R].parked)
+						case "end":
+							live[a.R].cmd <- "end"
+							okStep = wait(live[a.R].done)
+						}
+						if len(wrongLocal) > 0 {
+							rep.Add(kf.Mismatch{ID: "C11/frames/slot=" + st.Slot + "/kind=local-me", Expected: "handler locals belong to the request being served", Observed: wrongLocal, ObsKey: "foreign-local", Input: sched})
+							wrongLocal = nil
+							broken = true
+							return false
+						}
+						if !okStep {
+							rep.Infraf("C11 frames: request stalled at %v (slot %s)", sched, st.Slot)
+							return false
+						}
+					}
+					mu.Lock()
+					for k := range byGID {
+						delete(byGID, k)
+					}
+					mu.Unlock()
+					seen := map[string][]string{}
+					for name, r := range live {
+						if r.pan != nil {
+							rep.Add(kf.Mismatch{ID: "C11/frames/slot=" + st.Slot + "/kind=panic", Expected: "handler completes", Observed: fmt.Sprint(r.pan), ObsKey: "panic", Input: sched})
+							return true
+						}
+						body := r.rec.Body.String()
+						if reqPath == "/f" {
+							var env struct{ Out string }
+							if json.Unmarshal([]byte(body), &env) != nil {
+								rep.Add(kf.Mismatch{ID: "C11/frames/slot=" + st.Slot + "/kind=envelope", Expected: `{"out": ...} built by the formatter`, Observed: body, ObsKey: "envelope", Input: sched})
+								return true
+							}
+							body = env.Out
+						}
+						if body != "" {
+							seen[name] = strings.Split(strings.TrimSuffix(body, ";"), ";")
+						}
+					}
+					idx := map[string]int{}
+					for _, a := range acts {
+						if a.Op != "read" {
+							continue
+						}
+						frameReads++
+						i := idx[a.R]
+						idx[a.R]++
+						got := "<no output>"
+						if i < len(seen[a.R]) {
+							got = seen[a.R][i]
+						}
+						if exp := strings.Join(a.Own, ","); got != exp {
+							rep.Add(kf.Mismatch{ID: "C11/frames/slot=" + st.Slot, Expected: exp, Observed: got, ObsKey: "foreign-or-lost", Input: sched,
+								Detail: map[string]any{"request": a.R, "read_index": i}})
+							return true
+						}
+					}
+					nontrivial["frames:"+st.Slot+":"+strings.Join(sched, ",")] = true
+					return true
+				}
+				before := len(rep.Mismatches)
+				fg.AllPaths(64, func(init string, p []graph.Edge) bool {
+					return runFrames(init, append([]graph.Edge{}, p...)) && len(rep.Infra) == 0 && len(rep.Mismatches)-before < 40
+				})
+				reqPath, reqExtra = "/t", ""
+			}
+		}
+	}
+	rep.Coverage["frame_interleavings"] = frames
+	rep.Coverage["frame_reads_compared"] = frameReads
+
 	// 3. parallel vs alone (handlers without superglobals), in a subprocess: a crash of the interpreter
 	// under parallel requests must not take the checker down
 	nreq := c.Pick(600, 6000)
@@ -450,7 +624,7 @@ func C11(c *Ctx) *kf.Report {
 	rep.Coverage["traces_validated_against_impl"] = paths + nreq
 	rep.Coverage["evaluations"] = reads + nreq
 	rep.Coverage["distinct_nontrivial"] = len(nontrivial)
-	rep.Coverage["rule"] = "every interleaving of 2 requests x 2 superglobal reads (all 625 read programs) from the Superglobals graph forced through gates on a real Server, each read compared with the reference (own data) and, when wrong, with the deviation layer; plus parallel-vs-alone comparison of responses for handlers using locals, loops, arrays, objects, closures, recursion and the request object; non-trivial = interleavings in which the pinned mechanism would serve foreign data"
+	rep.Coverage["rule"] = "every interleaving of 2 requests x 2 steps (write | read) on each of 7 slot kinds (locals, by-value captures, handler-created object, onFormat formatter parameter and local) from the RequestFrames graph forced through gates on a real Server, every read compared with init + the reader's own writes; every interleaving of 2 requests x 2 superglobal reads (all 625 read programs) from the Superglobals graph forced through gates on a real Server, each read compared with the reference (own data) and, when wrong, with the deviation layer; plus parallel-vs-alone comparison of responses for handlers using locals, loops, arrays, objects, closures, recursion and the request object; non-trivial = interleavings in which the pinned mechanism would serve foreign data"
 	rep.Coverage["exhaustive"] = exhaustive
 	if len(samples) == 0 {
 		samples = append(samples, "none")
